@@ -16,10 +16,15 @@ def _exec_chunk(items):
     from pydbml import PyDBML
     out = []
     for it in items:
-        m = it['model']
+        m = it.get('model')
         text0 = None
         try:
-            if it['route'] == 'parsed':
+            if it['route'] == 'text':
+                # a real document: the model IS the projection of its parse
+                text0 = it['text']
+                db0 = PyDBML(text0, allow_properties=it['allow'])
+                m = pj.project_db(db0)
+            elif it['route'] == 'parsed':
                 text0 = print_doc(it['doc'], it['fseed'], it['pinned'])
                 db0 = PyDBML(text0, allow_properties=m['allowprops'])
             else:
